@@ -33,6 +33,21 @@ Ops (JSON lists), names are small integers (0 = the logged-in user, 1..4 remote 
                          (the handler now hangs in its `await send_message(...)` to the target), each listed op
                          is issued and the loop run to quiescence with the send still suspended, finally the
                          gate is released and the loop run to quiescence. One snapshot at the end.
+  ["sblock"] / ["srelease"]
+                         the library-side socket of the SERVER connection stops draining / drains again: every send
+                         to the server (BranchLevel/BranchRoot/ToggleParentSearch, AcceptChildren, GetUserStats) is
+                         written and then suspends its handler until the release (modelled: `Model/DistSusp.lean`)
+  ["cblock", c] / ["crelease", c]
+                         the same for the library-side socket of distributed connection c (a child: writes to
+                         children are fire-and-forget tasks, nobody waits — a no-op in the model)
+  ["arm", c]             the library-side socket of connection c is dead without the library knowing: its next write
+                         raises ConnectionResetError (the write task disconnects the connection)
+Unlike `gate`, these are ordinary ops: the loop is run to quiescence and a snapshot is taken after each of them, with
+the gates still in force. A case with `"strict": true` is compared with the model step by step; there an op whose
+source (the server connection / distributed connection c) is still inside a suspended handler is not issued
+(status `busy`: the connection's reader task is not waiting for data) — the model answers `busy` in the same
+situations. Without `strict` everything is issued (queued behind the suspended handler by the library) and only
+the monitor judges. `lost` also lets the old server socket go (after the close has been handled).
 Connection ids are creation order (0, 1, ...), identical on both sides.
 """
 from __future__ import annotations
@@ -116,6 +131,22 @@ def _fmt_opt(v):
     return '-' if v is None else str(v)
 
 
+def _ghost_stats(g: dict, speed: int):
+    """The child admission limits as the property reads them (DESIGN.md C13): a function of the statistics of the
+    own user handled last and of the ParentMinSpeed / ParentSpeedRatio in force at that moment (defaults when the
+    server has not sent them on this connection): acceptance is on iff speed >= min_speed * 1024; the maximum is
+    floor(speed * 10 / (ratio * 1024)) (0 when acceptance is off). A ratio of 0 leaves the maximum undefined
+    (nothing is judged until the next statistics)."""
+    ms = g['dms'] if g['ms'] is None else g['ms']
+    ratio = g['dratio'] if g['ratio'] is None else g['ratio']
+    if speed < ms * 1024:
+        g['accept'], g['max'], g['defined'] = False, 0, True
+    elif ratio == 0:
+        g['accept'], g['defined'] = True, False
+    else:
+        g['accept'], g['max'], g['defined'] = True, speed * 10 // (ratio * 1024), True
+
+
 async def _scenario(loop, case: dict):
     from vlib.simloop import settle
     from vlib.fakenet import FakeNet, Endpoint
@@ -156,6 +187,74 @@ async def _scenario(loop, case: dict):
         w.keep.append(client_like)
         bus.register(ConnectionStateChangedEvent, client_like)
 
+        # ---- probe: what the DistributedNetwork is handed, in the order in which it is handed it.
+        # Plain functions registered with priority 0: `EventBus.emit` calls them right before the manager's own
+        # listener for the same event (priority 100) and they add no suspension point. They keep the monitor's
+        # own record of (a) the names the server proposed as potential parents and (b) the child admission limits
+        # that follow from the own-user statistics handled so far (`_ghost_stats`), and note for every incoming
+        # distributed connection the limits in force and the children present when the manager is told of it.
+        from aioslsk import constants as _k
+        from aioslsk.events import PeerInitializedEvent, MessageReceivedEvent
+        ghost = {'session': False, 'ms': None, 'ratio': None, 'accept': bool(dn._accept_children),
+                 'max': int(dn._max_children), 'defined': True, 'proposed': [],
+                 'dms': int(_k.DEFAULT_PARENT_MIN_SPEED), 'dratio': int(_k.DEFAULT_PARENT_SPEED_RATIO)}
+        probe_log: list = []
+
+        def _cid_of_conn(conn):
+            for r in w.remotes:
+                if r.lib_conn is conn or (conn._writer is not None and conn._writer is r.writer.peer):
+                    return r.cid
+            return f'?{conn.username}'
+
+        def _limits():
+            return {'accept': ghost['accept'], 'max': ghost['max'], 'defined': ghost['defined']}
+
+        def probe_message(event: MessageReceivedEvent):
+            msg = event.message
+            if not isinstance(event.connection, ServerConnection):
+                return
+            if isinstance(msg, m.ParentMinSpeed.Response):
+                ghost['ms'] = msg.speed
+            elif isinstance(msg, m.ParentSpeedRatio.Response):
+                ghost['ratio'] = msg.ratio
+            elif isinstance(msg, m.PotentialParents.Response):
+                ghost['proposed'] += [unum(e.username) for e in msg.entries]
+                probe_log.append({'kind': 'pp', 'names': [unum(e.username) for e in msg.entries]})
+            elif isinstance(msg, m.GetUserStats.Response):
+                if ghost['session'] and msg.username == uname(ME):
+                    _ghost_stats(ghost, msg.user_stats.avg_speed)
+                    probe_log.append({'kind': 'stats', 'speed': msg.user_stats.avg_speed, 'limits': _limits(),
+                                      'ms': ghost['ms'], 'ratio': ghost['ratio'],
+                                      'attr_before': [bool(dn._accept_children), dn._max_children]})
+
+        def probe_init(event: PeerInitializedEvent):
+            if event.connection.connection_type != PeerConnectionType.DISTRIBUTED:
+                return
+            probe_log.append({'kind': 'init', 'user': unum(event.connection.username),
+                              'requested': bool(event.requested), 'c': _cid_of_conn(event.connection),
+                              'limits': _limits(),
+                              'children': [_cid_of_conn(p.connection) for p in dn.children],
+                              'proposed': list(ghost['proposed'][-_cache_size():]),
+                              'parent_name': None if dn.parent is None else unum(dn.parent.username),
+                              'attr': [bool(dn._accept_children), dn._max_children]})
+
+        def probe_state(event: ConnectionStateChangedEvent):
+            if isinstance(event.connection, ServerConnection):
+                ghost['ms'] = None
+                ghost['ratio'] = None
+
+        def probe_sess_on(event: SessionInitializedEvent):
+            ghost['session'] = True
+
+        def probe_sess_off(event: SessionDestroyedEvent):
+            ghost['session'] = False
+        w.keep += [probe_message, probe_init, probe_state, probe_sess_on, probe_sess_off]
+        bus.register(MessageReceivedEvent, probe_message, priority=0)
+        bus.register(PeerInitializedEvent, probe_init, priority=0)
+        bus.register(ConnectionStateChangedEvent, probe_state, priority=0)
+        bus.register(SessionInitializedEvent, probe_sess_on, priority=0)
+        bus.register(SessionDestroyedEvent, probe_sess_off, priority=0)
+
         # outgoing distributed connections: one endpoint per peer name
         def make_out_handler(n):
             async def handler(reader, writer):
@@ -192,6 +291,37 @@ async def _scenario(loop, case: dict):
         # frames of the *current* server connection start here
         sess_mark = {'idx': 0}
 
+        # ---- persistent gates (ops sblock / cblock): key 'server' or a connection id -> (library-side writer, event)
+        pgates: dict = {}
+        strict = bool(case.get('strict'))
+
+        def gate_on(key, wr):
+            """drain() of this library-side socket blocks until released (then returns normally, also when the socket
+            was closed meanwhile: a transport whose buffer cannot be flushed reports the loss only later)."""
+            if key in pgates:
+                return
+            ev = asyncio.Event()
+
+            async def gated_drain():
+                await ev.wait()
+            wr.drain = gated_drain
+            pgates[key] = (wr, ev)
+
+        def gate_off(key) -> bool:
+            if key not in pgates:
+                return False
+            wr, ev = pgates.pop(key)
+            ev.set()
+            try:
+                del wr.drain
+            except AttributeError:
+                pass
+            return True
+
+        def reader_idle(lib_writer) -> bool:
+            """the library's reader task of this socket is waiting for data (not inside a handler)"""
+            return lib_writer.own_reader._waiter is not None
+
         def snapshot(status: str):
             bind_lib_conns()
             cid_of = {}
@@ -215,6 +345,8 @@ async def _scenario(loop, case: dict):
                               'registered': p.connection in net.peer_connections,
                               'ctype': p.connection.connection_type,
                               'remote_open': bool(r and remote_open(r)),
+                              # the connection's reader task is inside a handler (it cannot have seen an EOF)
+                              'reader_busy': bool(r and r.writer.peer.own_reader._waiter is None),
                               'other': sum(1 for f in (r.frames if r else []) if not isinstance(
                                   f, (m.DistributedBranchLevel.Request, m.DistributedBranchRoot.Request)))})
             cur = server.received[sess_mark['idx']:] if state['session'] is not None else []
@@ -249,7 +381,10 @@ async def _scenario(loop, case: dict):
                 'n_ac': len(server_frames(m.AcceptChildren.Request)),
                 'n_gus': len(server_frames(m.GetUserStats.Request)),
                 'exceptions': len(loop.exceptions),
+                'gates': sorted(map(str, pgates)),
+                'probe': probe_log[:],
             }
+            del probe_log[:]
             return snap
 
         def server_up() -> bool:
@@ -268,17 +403,42 @@ async def _scenario(loop, case: dict):
                 sess = Session(user=User(name=uname(ME)), ip_address='1.2.3.4', greeting='',
                                client_version=157, minor_version=100)
                 state['session'] = sess
-                await bus.emit(SessionInitializedEvent(session=sess, raw_message=None))
+                # (as its own task: a listener that gets suspended must not suspend the schedule)
+                w.keep.append(asyncio.ensure_future(bus.emit(SessionInitializedEvent(session=sess, raw_message=None))))
+                await asyncio.sleep(0)
                 net.server_connection.start_reader_task()
                 return 'ok'
             if k == 'lost':
                 if state['session'] is None or not server_up():
                     return 'no-server'
+                if strict and not reader_idle(server.sessions[-1][1].peer):
+                    return 'busy'
                 server.close()
+                return 'ok'
+            if k == 'sblock':
+                if state['session'] is None or not server_up():
+                    return 'no-server'
+                gate_on('server', server.sessions[-1][1].peer)
+                return 'ok'
+            if k == 'srelease':
+                return 'ok' if gate_off('server') else 'no-gate'
+            if k in ('cblock', 'crelease', 'arm'):
+                c = op[1]
+                if not isinstance(c, int) or c < 0 or c >= len(w.remotes) or not remote_open(w.remotes[c]):
+                    return 'no-conn'
+                wr = w.remotes[c].writer.peer
+                if k == 'cblock':
+                    gate_on(c, wr)
+                elif k == 'crelease':
+                    gate_off(c)
+                else:
+                    wr.fail_after = len(wr.sent)
                 return 'ok'
             if k in ('pp', 'minspeed', 'ratio', 'stats', 'reset'):
                 if state['session'] is None or not server_up():
                     return 'no-server'
+                if strict and not reader_idle(server.sessions[-1][1].peer):
+                    return 'busy'
                 if k == 'pp':
                     msg = m.PotentialParents.Response(
                         [PotentialParent(uname(n), peer_addr(n)[0], peer_addr(n)[1]) for n in op[1]])
@@ -309,6 +469,8 @@ async def _scenario(loop, case: dict):
                 if not isinstance(c, int) or c < 0 or c >= len(w.remotes) or not remote_open(w.remotes[c]):
                     return 'no-conn'
                 r = w.remotes[c]
+                if strict and not reader_idle(r.writer.peer):
+                    return 'busy'
                 if k == 'level':
                     r.writer.write(m.DistributedBranchLevel.Request(op[2]).serialize())
                 elif k == 'root':
@@ -368,11 +530,16 @@ async def _scenario(loop, case: dict):
                 status = 'gate:' + ','.join(sts) + ('' if gates else ':ungated')
             else:
                 status = await issue(op)
+                if op[0] == 'lost' and status == 'ok':
+                    await settle()
+                    gate_off('server')           # the old server socket lets go of what was suspended in it
             await settle()
             snap = snapshot(status)
             snap['before'] = {k: before[k] for k in ('accept', 'max', 'children', 'potential', 'parent_name')}
             trace.append(snap)
         # tidy up: close everything so that no task leaks into the next case
+        for key in list(pgates):
+            gate_off(key)
         for r in w.remotes:
             if r.task:
                 r.task.cancel()
@@ -432,8 +599,7 @@ def _flat_ops(op):
 
 def _monitor(case: dict, trace: list) -> list[Violation]:
     vs: list[Violation] = []
-    proposed: list = []            # names the server proposed so far (most recent last)
-    cache = _cache_size()
+    pending: list = []             # incoming connections the manager was told of, not yet admitted or gone
 
     def add(sig, what, k, observed=None, required=None):
         vs.append(Violation(sig, f'after op #{k} {case["ops"][k]}: {what}', case, observed=observed, required=required))
@@ -443,10 +609,6 @@ def _monitor(case: dict, trace: list) -> list[Violation]:
         subs = _flat_ops(op)
         statuses = (s['status'].split(':')[1].split(',') if s['status'].startswith(('burst', 'gate'))
                     else [s['status']])
-        proposed_before = list(proposed[-cache:])
-        for sub, st in zip(subs, statuses):
-            if sub[0] == 'pp' and st == 'ok':
-                proposed += list(sub[1])
         # --- one parent, not a child
         if s['parent'] is not None and s['parent_name'] in s['children_names']:
             add('C13-parent-is-child', f'parent {s["parent_name"]} (connection {s["parent"]}) is among the children '
@@ -456,13 +618,13 @@ def _monitor(case: dict, trace: list) -> list[Violation]:
         if s['parent'] is not None:
             p = by_c.get(s['parent'])
             if (not s['parent_in_peers'] or p is None or s['parent_state'] != 'CONNECTED' or not p['registered']
-                    or p['ctype'] != 'D' or not p['remote_open']):
+                    or p['ctype'] != 'D' or not (p['remote_open'] or p.get('reader_busy'))):
                 add('C13-dead-parent', f'parent connection {s["parent"]} is not a live registered distributed '
                     f'connection (state {s["parent_state"]})', k, observed=p)
         for c, inp, stt in zip(s['children'], s['children_in_peers'], s['children_state']):
             p = by_c.get(c)
             if (not inp or p is None or stt != 'CONNECTED' or not p['registered'] or p['ctype'] != 'D'
-                    or not p['remote_open']):
+                    or not (p['remote_open'] or p.get('reader_busy'))):
                 add('C13-dead-child', f'child connection {c} is not a live registered distributed connection '
                     f'(state {stt}, in distributed_peers: {inp}, in the network registry: '
                     f'{None if p is None else p["registered"]}, socket open: '
@@ -494,10 +656,40 @@ def _monitor(case: dict, trace: list) -> list[Violation]:
                         f'maximum {b["max"]}', k,
                         observed={'accept': b['accept'], 'max': b['max'], 'children_before': b['children'],
                                   'children_after': s['children']})
-            for c, n in new:
-                if n in proposed_before and (len(subs) == 1 or 'pp' not in kinds):
-                    add('C13-candidate-taken-as-child', f'peer {n} was proposed by the server as potential parent '
-                        f'and is taken as child (connection {c})', k, observed={'proposed': proposed_before})
+        # --- admission, judged at the moment the manager is told of the connection (probe): the limits that bind are
+        # those that follow from the own-user statistics HANDED to the manager so far — a new limit binds from the
+        # moment the GetUserStats response is handed over, not from when AcceptChildren has been flushed to the
+        # server. A connection admitted later than that moment is judged against every limit in force between the
+        # two (sound for deferred admissions); the number of children at the moment of admission is at least the
+        # number of those present all the while.
+        for e in s.get('probe', []):
+            if e['kind'] == 'stats':
+                for q in pending:
+                    q['S'].append(e['limits'])
+            elif e['kind'] == 'init' and not e['requested'] and isinstance(e['c'], int):
+                pending.append(dict(e, S=[e['limits']], op=k))
+        registered = {p['c'] for p in s['peers']}
+        still = []
+        for q in pending:
+            if q['c'] in s['children']:
+                lims = q['S']
+                c_low = len([c for c in q['children'] if c in s['children'] and c != q['c']])
+                obs = {'limits_in_force': lims, 'children_when_told': q['children'], 'children_now': s['children'],
+                       'attributes_when_told': q['attr'], 'told_of_connection_in_op': q['op']}
+                if all(L['defined'] for L in lims):
+                    if not any(L['accept'] for L in lims):
+                        add('C13-child-admission', f'peer {q["user"]} (connection {q["c"]}) accepted as child while '
+                            f'child acceptance is off (statistics handled last: acceptance off)', k, observed=obs)
+                    elif not any(L['accept'] and c_low < L['max'] for L in lims):
+                        add('C13-child-admission', f'peer {q["user"]} (connection {q["c"]}) accepted as child with '
+                            f'{c_low} children and maximum {max(L["max"] for L in lims)} (from the statistics '
+                            f'handled last)', k, observed=obs)
+                if q['user'] in q['proposed']:
+                    add('C13-candidate-taken-as-child', f'peer {q["user"]} was proposed by the server as potential '
+                        f'parent and is taken as child (connection {q["c"]})', k, observed={'proposed': q['proposed']})
+            elif q['c'] in registered:
+                still.append(q)
+        pending = still
         # --- truthfulness (only while logged in: "own name" is the session's user)
         if s['session'] and s['dn_session']:
             if s['parent'] is None:
@@ -514,7 +706,9 @@ def _monitor(case: dict, trace: list) -> list[Violation]:
             if told != derived:
                 add('C13-server-not-told', f'server was last told level/root/search {told}, position derived from '
                     f'the parent is {derived}', k, observed=told, required=derived)
-            for c in s['children']:
+            # the children are told after the server (`await _notify_server_of_parent()` comes first): while a
+            # socket is held back (sblock / cblock in force) a handler may still be on its way to them
+            for c in (s['children'] if not s.get('gates') else []):
                 p = by_c.get(c)
                 if p is None:
                     continue
@@ -546,7 +740,8 @@ def _gen_case(rng: random.Random, kind: Optional[str] = None) -> dict:
     peers = list(range(1, npeers + 1))
     roots = peers + [5, 6, 6, 5, ME] if rng.random() < 0.25 else peers + [5, 6, 6, 5]
     kind = kind or rng.choice(['random', 'random', 'parent', 'parent', 'child', 'child', 'session', 'limits',
-                               'overflow', 'burst', 'gate', 'gate', 'gate'])
+                               'overflow', 'burst', 'gate', 'gate', 'gate', 'sgate', 'sgate', 'sgate', 'cfault',
+                               'cfault', 'cfault', 'reparent'])
     ops: list = []
     nconn = 0
     up = False
@@ -776,6 +971,231 @@ def _gen_case(rng: random.Random, kind: Optional[str] = None) -> dict:
             do(['gate', tgt, ['in', rng.choice(peers)], during])
         if not up:
             do(['session'])
+    elif kind in ('sgate', 'cfault'):
+        # suspended sends to the SERVER (sgate) and per-child write outcomes at every change of position (cfault),
+        # as ordinary ops with a snapshot after each; `strict` cases are compared with the model step by step
+        strict = rng.random() < 0.65
+        others = [r for r in roots if r != ME]
+        pname = rng.choice(peers)                                  # user of the (future) parent
+        knames = [q for q in peers if q != pname] if rng.random() < 0.9 else list(peers)
+        kids: list = []                                            # connection ids of the (presumed) children
+        st = {'parent': None, 'cand': None, 'sblocked': False, 'srv_used': False, 'cblocked': []}
+
+        def add_kids(k):
+            for _ in range(k):
+                kids.append(nconn)
+                do(['in', rng.choice(knames)])
+
+        def candidate(complete, name=None):
+            c = nconn
+            a = pname if name is None else name
+            do(['pp', [a]])
+            rt = rng.choice([r for r in others if r != a] or others)
+            if complete:
+                lv = rng.choice([0, 1, 2, 3])
+                for o in rng.choice([[['level', c, lv], ['root', c, rt]], [['root', c, rt], ['level', c, lv]]]):
+                    do(o)
+                st['parent'] = c
+            else:
+                do(['root', c, rt])
+                st['cand'] = c
+            return c
+
+        def position_change(which):
+            """ops that change the advertised position (or make the client advertise it again)"""
+            pc, cc = st['parent'], st['cand']
+            if which == 'new-parent' and cc is not None:
+                st['parent'], st['cand'] = cc, None
+                return [['level', cc, rng.choice([0, 1, 2, 3])]]
+            if which == 'reannounce' and pc is not None:
+                return rng.choice([[['level', pc, rng.choice([0, 1, 3, 7])]], [['root', pc, rng.choice(others)]],
+                                   [['level', pc, rng.choice([1, 3, 7])], ['root', pc, rng.choice(others)]]])
+            if which == 'parent-lost' and pc is not None:
+                st['parent'] = None
+                return [['close', pc]]
+            if which == 'reset':
+                st['parent'] = None
+                return [['reset']]
+            if which == 'session':
+                return [['lost'], ['session']]
+            return [['level', conn(), rng.choice(LEVELS)]]
+
+        def meanwhile():
+            """an event handled while sends are suspended"""
+            pc, cc = st['parent'], st['cand']
+            pool = [['in', rng.choice(peers)]] * 4 + [['in', rng.choice(knames)]] * 2
+            if kids:
+                pool += [['close', rng.choice(kids)]] * 2 + [['arm', rng.choice(kids)], ['cblock', rng.choice(kids)],
+                                                            ['level', rng.choice(kids), 1]]
+            if pc is not None:
+                pool += [['close', pc], ['level', pc, rng.choice([0, 2, 5])], ['root', pc, rng.choice(others)]]
+            if cc is not None:
+                pool += [['level', cc, rng.choice([1, 2])]] * 2 + [['close', cc]]
+            pool += [['stats', ME, rng.choice(SPEEDS)]] * 2 + [['ratio', rng.choice(RATIOS)], ['reset'], ['lost'],
+                                                               ['minspeed', rng.choice(MINSPEEDS)],
+                                                               ['stats', rng.choice(peers), 0]]
+            if not (strict and st['srv_used']):
+                pool += [['pp', [rng.choice(peers)]]] * 2         # (a refused pp would shift the connection ids)
+            o = rng.choice(pool)
+            if o[0] in ('stats', 'ratio', 'minspeed', 'reset', 'pp', 'lost'):
+                st['srv_used'] = True
+            if o[0] == 'close' and o[1] == pc:
+                st['parent'] = None
+            if o[0] == 'cblock':
+                st['cblocked'].append(o[1])
+            if o[0] == 'lost':
+                st['sblocked'] = False
+            return o
+
+        if not up:
+            do(['session'])
+        if kind == 'sgate':
+            variant = rng.choice(['limit-off', 'limit-lower', 'limit-lower', 'limit-raise', 'set-parent', 'reannounce',
+                                  'unset', 'unset', 'reset', 'ratio', 'two-handlers', 'random'])
+            if variant.startswith('limit'):
+                k = rng.choice([0, 1, 1, 2])
+                ratio = rng.choice([None, None, 10, 100])
+                unit = 5120 if ratio is None else ratio * 1024 // 10    # speed per child slot
+                if ratio is not None:
+                    do(['ratio', ratio])
+                if variant == 'limit-raise':
+                    do(['stats', ME, rng.choice([0, unit * k])])          # off, or full with k children
+                    if rng.random() < 0.5 and k:
+                        do(['stats', ME, unit * k]); add_kids(k); 
+                    trig = ['stats', ME, unit * (k + rng.choice([1, 2]))]
+                else:
+                    do(['stats', ME, unit * (k + 1)])
+                    add_kids(rng.choice([k, k, k + 1]))
+                    if rng.random() < 0.3:
+                        candidate(rng.random() < 0.5)
+                    trig = (['stats', ME, rng.choice([0, 1023])] if variant == 'limit-off'
+                            else ['stats', ME, unit * rng.randint(0, k)])
+                do(['sblock']); st['sblocked'] = True
+                do(trig); st['srv_used'] = True
+                do(['in', rng.choice(knames)])
+            elif variant in ('set-parent', 'reannounce', 'unset', 'reset', 'two-handlers'):
+                first = rng.random() < 0.5
+                if first:
+                    add_kids(rng.choice([0, 1, 2]))
+                if variant == 'set-parent':
+                    candidate(False)
+                else:
+                    candidate(True)
+                    if variant == 'unset' and rng.random() < 0.7:
+                        candidate(False, rng.choice([q for q in peers if q != pname]))
+                if not first:
+                    add_kids(rng.choice([1, 2]))
+                do(['sblock']); st['sblocked'] = True
+                which = {'set-parent': 'new-parent', 'reannounce': 'reannounce', 'unset': 'parent-lost',
+                         'reset': 'reset', 'two-handlers': 'reannounce'}[variant]
+                if which == 'reset':
+                    st['srv_used'] = True
+                for o in position_change(which)[:1]:
+                    do(o)
+                if variant == 'two-handlers':
+                    do(rng.choice([['stats', ME, rng.choice(SPEEDS)], ['in', rng.choice(peers)]]))
+                    st['srv_used'] = True
+                if variant == 'unset' and st['cand'] is not None and rng.random() < 0.7:
+                    for o in position_change('new-parent'):        # a new parent while the old one's handler hangs
+                        do(o)
+            elif variant == 'ratio':
+                do(['minspeed', rng.choice(MINSPEEDS)])
+                add_kids(rng.choice([0, 1]))
+                do(['sblock']); st['sblocked'] = True
+                do(['ratio', rng.choice(RATIOS)]); st['srv_used'] = True
+            else:
+                for _ in range(rng.choice([1, 2, 3])):
+                    do(rand_op())
+                if up:
+                    do(['sblock']); st['sblocked'] = True
+            for _ in range(rng.choice([1, 1, 2, 3])):
+                do(meanwhile())
+            if st['sblocked'] and rng.random() < 0.9:
+                do(['srelease'])
+            for c in st['cblocked']:
+                do(['crelease', c])
+            for _ in range(rng.choice([0, 1, 2])):
+                do(rng.choice([['in', rng.choice(peers)], ['stats', ME, rng.choice(SPEEDS)], rand_op()]))
+        else:
+            which = rng.choice(['new-parent', 'new-parent', 'reannounce', 'reannounce', 'parent-lost', 'parent-lost',
+                                'session', 'reset'])
+            k = rng.choice([2, 2, 3, 3, 4])
+            parent_first = which in ('reannounce', 'parent-lost', 'session', 'reset') and rng.random() < 0.6
+            if which in ('session', 'reset') and rng.random() < 0.4:
+                parent_first = None                                  # no parent at all
+            if parent_first:
+                candidate(True)
+            add_kids(k)
+            if parent_first is False:
+                candidate(which != 'new-parent')
+            outcomes = [rng.choice(['ok', 'ok', 'fail', 'block', 'block-close', 'close', 'block-fail'])
+                        for _ in kids]
+            if all(o == 'ok' for o in outcomes):
+                outcomes[rng.randrange(len(kids))] = rng.choice(['fail', 'block-close', 'block'])
+            pre, during, post = [], [], []
+            for c, o in zip(kids, outcomes):
+                if o in ('fail', 'block-fail'):
+                    pre.append(['arm', c])
+                if o.startswith('block'):
+                    pre.append(['cblock', c]); post.append(['crelease', c])
+                if o in ('block-close', 'close'):
+                    during.append(['close', c])
+            rng.shuffle(pre)
+            with_server = rng.random() < 0.25
+            if with_server:
+                pre.insert(rng.randrange(len(pre) + 1), ['sblock'])
+                post.insert(rng.randrange(len(post) + 1), ['srelease'])
+            for o in pre:
+                do(o)
+            change = position_change(which)
+            if which == 'session' and with_server:
+                change = position_change('reannounce')
+            do(change[0])
+            rest = change[1:]
+            if rng.random() < 0.3:
+                during.append(rng.choice([['in', rng.choice(peers)], ['close', rng.choice(kids)]]))
+            rng.shuffle(during)
+            for o in during[:2]:
+                do(o)
+            for o in rest:
+                do(o)
+            rng.shuffle(post)
+            for o in post:
+                do(o)
+            if rng.random() < 0.5:                                     # a further change of position afterwards
+                for o in position_change(rng.choice(['reannounce', 'parent-lost', 'session', 'new-parent'])):
+                    do(o)
+        if not up:
+            do(['session'])
+        limit = 18
+        while len(ops) < 6 or (len(ops) < limit and rng.random() < 0.3):
+            do(rand_op())
+        return {'ops': ops[:limit], 'kind': kind + ('' if strict else '-free'), 'npeers': npeers, 'strict': strict}
+    elif kind == 'reparent':
+        # the position is taken, lost and taken again: a second parent at the SAME place as the first (a sibling), at
+        # another place, the same values announced again, with children present throughout
+        others = [r for r in roots if r != ME]
+        a, b = rng.sample(peers, 2)
+        for _ in range(rng.choice([1, 1, 2])):
+            do(['in', rng.choice([q for q in peers if q not in (a, b)] or peers)])
+        lv, rt = rng.choice([0, 1, 1, 2, 3]), rng.choice([r for r in others if r not in (a, b)] or others)
+        pc = nconn
+        do(['pp', [a]])
+        for o in rng.choice([[['level', pc, lv], ['root', pc, rt]], [['root', pc, rt], ['level', pc, lv]]]):
+            do(o)
+        if rng.random() < 0.3:
+            do(rng.choice([['level', pc, lv], ['root', pc, rt], ['in', rng.choice(peers)]]))     # repeated values
+        do(rng.choice([['close', pc], ['close', pc], ['reset']]))
+        if rng.random() < 0.65:
+            lv2, rt2 = lv, rt
+        else:
+            lv2, rt2 = rng.choice([0, 1, 2, 3]), rng.choice(others)
+        pc2 = nconn
+        do(['pp', [b]])
+        for o in rng.choice([[['level', pc2, lv2], ['root', pc2, rt2]], [['root', pc2, rt2], ['level', pc2, lv2]]]):
+            do(o)
+        if rng.random() < 0.4:
+            do(rng.choice([['level', pc2, lv2], ['level', pc2, rng.choice([1, 5])], ['close', pc2]]))
     limit = 10 if kind != 'overflow' else 12
     while len(ops) < limit and (len(ops) < 4 or rng.random() < 0.8):
         do(rand_op())
@@ -796,9 +1216,13 @@ def _model_lines(case: dict) -> list[str]:
     return out
 
 
+PRIMS = ('sblock', 'srelease', 'cblock', 'crelease', 'arm')
+
+
 def _has_burst(case) -> bool:
-    """monitor-only cases (burst / gate): the model is atomic per op"""
-    return any(op[0] in ('burst', 'gate') for op in case['ops'])
+    """monitor-only cases: burst / gate (the model has no composite ops), and cases with held-back sockets that
+    are not `strict` (events are issued to sources that are inside a suspended handler)"""
+    return any(op[0] in ('burst', 'gate') or (op[0] in PRIMS and not case.get('strict')) for op in case['ops'])
 
 
 def _eval_case(case):
@@ -829,6 +1253,26 @@ WITNESSES = {
     'gate-close-during-send': {'ops': [['session'], ['gate', 'new', ['in', 4], [['close', 0]]]], 'kind': 'witness'},
     'parent-connects-as-child': {'ops': [['session'], ['pp', [1]], ['level', 0, 0]] + [['pp', [2, 2, 2, 2]]] * 5 +
                                  [['in', 1]], 'kind': 'witness'},
+    # suspended sends to the server / per-child write outcomes (compared with the model step by step)
+    'sgate-acceptance-off-during-send': {'ops': [['session'], ['sblock'], ['stats', 0, 0], ['in', 2], ['srelease']],
+                                         'kind': 'witness', 'strict': True},
+    'sgate-maximum-lowered-during-send': {'ops': [['session'], ['stats', 0, 10240], ['in', 1], ['sblock'],
+                                                  ['stats', 0, 5120], ['in', 2], ['srelease'], ['in', 3]],
+                                          'kind': 'witness', 'strict': True},
+    'sgate-new-parent-while-unset-hangs': {'ops': [['session'], ['in', 4], ['pp', [1, 2]], ['level', 1, 1],
+                                                   ['root', 1, 5], ['root', 2, 6], ['sblock'], ['close', 1],
+                                                   ['level', 2, 2], ['in', 3], ['srelease']],
+                                           'kind': 'witness', 'strict': True},
+    'cfault-write-to-first-child-fails': {'ops': [['session'], ['in', 1], ['in', 2], ['pp', [3]], ['root', 2, 5],
+                                                  ['arm', 0], ['level', 2, 1], ['level', 2, 3]],
+                                          'kind': 'witness', 'strict': True},
+    'cfault-first-child-leaves-during-blocked-send': {'ops': [['session'], ['in', 1], ['in', 2], ['in', 3], ['pp', [4]],
+                                                              ['root', 3, 5], ['cblock', 0], ['level', 3, 1],
+                                                              ['close', 0], ['crelease', 0]],
+                                                      'kind': 'witness', 'strict': True},
+    'cfault-parent-lost-child-blocked': {'ops': [['session'], ['pp', [4]], ['level', 0, 2], ['root', 0, 6], ['in', 1],
+                                                 ['in', 2], ['cblock', 1], ['arm', 2], ['close', 0], ['close', 1],
+                                                 ['crelease', 1]], 'kind': 'witness', 'strict': True},
 }
 
 
@@ -836,33 +1280,58 @@ class C13(Property):
     id = 'C13'
     props_module = 'AioslskVerif.Props.C13'
     driver_module = 'AioslskVerif.Driver.C13'
-    rule = ('op sequences of length <= 10 (12 for the cache-overflow family) over 3..4 remote peers drawn from '
-            '{session, lost, pp(names), in(name), level(conn,v), root(conn,name), close(conn), minspeed, ratio, '
-            'stats, reset, burst}, generated state-directed from VERIF_SEED (families: parent flow with both '
-            'announcement orders and re-announcement, child flow incl. a child announcing a position, session '
-            'loss, admission limits, cache overflow, bursts, suspended sends ["gate": drain() of a chosen socket '
-            'blocks while 1-2 further events are handled; monitor only]); a case is non-trivial when at some quiescent point '
+    rule = ('op sequences of length <= 10 (12 for the cache-overflow family, <= 18 ops incl. socket controls for the '
+            'suspended-send / write-fault families) over 3..4 remote peers drawn from {session, lost, pp(names), in(name), '
+            'level(conn,v), root(conn,name), close(conn), minspeed, ratio, stats, reset, burst} plus the socket controls '
+            '{sblock, srelease, cblock(conn), crelease(conn), arm(conn)}, generated state-directed from VERIF_SEED '
+            '(families: parent flow with both announcement orders and re-announcement, child flow incl. a child '
+            'announcing a position, session loss, admission limits, cache overflow, bursts, "reparent": a second parent '
+            'at the same / another place after the first was lost, with children; "gate": drain() of a chosen '
+            'socket blocks while 1-2 further events are handled [monitor only]; "sgate": the SERVER socket stops '
+            'draining, a handler that sends to the server (statistics lowering / raising / switching off the child '
+            'limit, ratio / min-speed update, new parent, parent re-announcing, parent lost, reset, two handlers at '
+            'once) is suspended in its send, 1-3 events of every kind are handled meanwhile, release; "cfault": 2-4 '
+            'children with a write outcome each (ok / dead socket / blocked then released / blocked then the child '
+            'disconnects / disconnects meanwhile) at every change of position (new parent, parent re-announces, parent '
+            'lost, session re-initialised, reset), optionally with the server socket blocked as well; 65 % of the '
+            'sgate / cfault cases are "strict": compared with the model after EVERY op, the rest issue events also to '
+            'sources whose handler is suspended [monitor only]); a case is non-trivial when at some quiescent point '
             'the client had a parent or a child; distinct = distinct canonical op list')
     assumptions = [
         'settings.debug.search_for_parent is True (default); peer.connect_mode default (race); every proposed '
         'potential parent is reachable (direct connection succeeds)',
-        'ops are separated by quiescence of the event loop (handlers are atomic in the model); back-to-back '
-        'delivery (burst) and suspended sends (gate: the send to the new child / an existing child / the server '
-        'blocks in drain() while further events are handled) are exercised on the implementation with the '
-        'monitor only',
+        'ops are separated by quiescence of the event loop. A handler is atomic in the model except where it awaits '
+        'a send to the server (Model/DistSusp.lean: the frames are written at once, the rest of the handler is a '
+        'continuation that runs when the server socket drains, first-in first-out); sends to children are '
+        'fire-and-forget tasks, a blocked child socket suspends nobody, a dead one fails in its own task. Other '
+        'suspension points inside handlers (disconnects, cancelled connection attempts, the sends of _add_child to '
+        'the new child) and back-to-back delivery (burst) are exercised on the implementation with the monitor only',
+        'a blocked drain() returns normally when released (also when the socket was closed meanwhile); virtual time '
+        'does not advance while sockets are held back (the 10 s write time-out does not fire)',
         'max_children = floor(speed*10/(ratio*1024)) over exact integers; generated (speed, ratio) pairs are '
         'restricted to a grid on which the float expression of the code agrees (asserted at import)',
         'branch levels < 2^32-1 (level+1 must be serialisable as uint32)',
         'truthfulness is demanded while a session exists (own name = session user); SessionDestroyed is issued by '
-        'a listener doing what client.py:367-373 does',
+        'a listener doing what client.py:367-373 does. The server must have been told the derived position at every '
+        'quiescent point, the children at every quiescent point at which no socket is held back (the code tells '
+        'the server first and awaits that send before it tells the children)',
+        'child admission is judged at the moment the manager is handed the PeerInitializedEvent (a plain listener '
+        'with priority 0 on the event bus records it) against the limits that follow from the own-user statistics '
+        'HANDED to the manager so far: a new limit binds from the moment the GetUserStats response is handed over '
+        '(Spec/DistLimits.lean, C13_limits_bind_at_stats), not from when AcceptChildren has been flushed; a ratio of '
+        '0 leaves the maximum undefined (nothing judged until the next statistics)',
     ]
     modelled = ('distributed.py: _get_advertised_branch_values, _set_parent, _check_if_new_parent, _unset_parent, '
-                '_notify_server_of_parent, _notify_children_of_branch_values, _check_if_new_child, _add_child, '
+                '_notify_server_of_parent, _notify_children_of_branch_values, send_messages_to_children (per child), '
+                '_check_if_new_child, _add_child, '
                 '_remove_child, handlers for PotentialParents, ParentMinSpeed, ParentSpeedRatio, GetUserStats, '
                 'ResetDistributed, DistributedBranchLevel, DistributedBranchRoot, PeerInitializedEvent, '
-                'ConnectionStateChangedEvent (peer CLOSED, any server state), SessionInitialized/Destroyed. '
+                'ConnectionStateChangedEvent (peer CLOSED, any server state), SessionInitialized/Destroyed; the '
+                'suspension of a handler in its send to the server and its resumption (continuations), a child '
+                'write failing in its task. '
                 'Exercised, not modelled: Network/PeerConnection/ServerConnection/ListeningConnection, EventBus, '
-                'asyncio scheduling inside a handler, float arithmetic of _calculate_max_children, '
+                'asyncio scheduling inside a handler apart from the server sends, float arithmetic of '
+                '_calculate_max_children, '
                 'potential-parent connection tasks and their cancellation, search request forwarding (C14), '
                 'DistributedChildDepth')
 
